@@ -1,6 +1,7 @@
-(* Extraction of the C03 plan checker (ExtrOcamlBasic only). *)
+(* Extraction of the C03 plan checkers (ExtrOcamlBasic only). *)
 Require Import ExtrOcamlBasic.
-Require Import NS.theories.F64 NS.theories.StrLib NS.theories.Lang NS.theories.PlanCheck.
+Require Import NS.theories.F64 NS.theories.StrLib NS.theories.Lang NS.theories.PlanCheck NS.theories.LiveCheck.
 Extraction Language OCaml.
 Extraction "extract/ModelLangC03.ml"
-  F64.of_bits F64.to_bits Lang.run_impl PlanCheck.plan_ok PlanCheck.plan_ok2 PlanCheck.prunable_unreachable.
+  F64.of_bits F64.to_bits Lang.run_impl PlanCheck.plan_ok PlanCheck.plan_ok2 PlanCheck.prunable_unreachable
+  LiveCheck.plan_ok3 LiveCheck.ds_ok.
